@@ -304,6 +304,15 @@ LawScaleInvariance(a, s, y, neg) ==
      /\ IsVal(o) => o.v = Scale(sk, b.v)
      /\ (IsVal(o) /\ k < 0) => MatMul(o.v, MatPow(x, -k)) = Identity(a.sh[1])
      /\ (k < 0 /\ neg) => (IsErr(o) <=> IsSingular(a))
+(* integrality of an exponent is exact, not approximate: a real exponent at any non-zero distance from an integer
+   (2.00001, -1.000000001) is a non-integer and the power of a matrix is refused, however small the distance; at
+   distance zero (2.0) it is that integer.  y = (b * 10^p + d) / 10^p  with d in {-1, 0, 1}. *)
+NearInteger(b, d, p) == LET RECURSIVE T(_)  T(n) == IF n = 0 THEN 1 ELSE 10 * T(n - 1)
+                        IN Scalar(<<Q(b * T(p) + d, T(p)), Zero>>)
+LawNearInteger(x, b, d, p, neg) ==
+  LET o == PowOp(x, NearInteger(b, d, p), neg) IN
+  IF d # 0 THEN IsErr(o) /\ ~GIsInteger(NearInteger(b, d, p).e[1])
+  ELSE SameOutcome(o, PowOp(x, Scalar(GInt(b, 0)), neg))
 \* determinants multiply
 LawDetMul(x, y) == (IsSquare(x) /\ IsSquare(y) /\ x.sh = y.sh /\ x.sh[1] > 1) =>
                      Det(MatMul(x, y)) = GMul(Det(x), Det(y))
